@@ -348,6 +348,23 @@ pub fn conforming_channel_lists(em: &mut Emitter) {
         let ids: Vec<u16> = (0..n).map(|i| 1004 + i as u16).collect();
         emit(em, format!("gcc_ccr {}", hex(&refsrv::gcc_response_channels(&p, &ids, *pad))));
     } } }
+    // the blocks in every order (the order is free), with blocks longer than the client's templates in front of others:
+    // a net block with an odd channel count (2 bytes of padding), a 16-byte core block, a security block with random and certificate
+    {
+        let core = refsrv::cat(&[&[0x01u8, 0x0c, 0x10, 0x00], &refsrv::le32(0x00080004), &refsrv::le32(1), &refsrv::le32(0)]);
+        let sec_plain = vec![0x02u8, 0x0c, 0x0c, 0x00, 0, 0, 0, 0, 0, 0, 0, 0];
+        let sec_rnd = refsrv::cat(&[&[0x02u8, 0x0c, 0x3c, 0x00], &refsrv::le32(2), &refsrv::le32(2), &refsrv::le32(32), &refsrv::le32(8), &[0x5au8; 32], &[1, 0, 0, 0, 2, 0, 0, 0]]);
+        let net_odd = refsrv::cat(&[&[0x03u8, 0x0c, 0x0c, 0x00, 0xeb, 0x03, 0x01, 0x00, 0xec, 0x03, 0x00, 0x00]]);
+        let net3 = refsrv::cat(&[&[0x03u8, 0x0c, 0x10, 0x00, 0xeb, 0x03, 0x03, 0x00, 0xec, 0x03, 0xed, 0x03, 0xee, 0x03, 0x00, 0x00]]);
+        for sec in &[&sec_plain, &sec_rnd] { for net in &[&net_odd, &net3] {
+            let bl: [&Vec<u8>; 3] = [&core, sec, net];
+            for perm in &[[0usize, 1, 2], [0, 2, 1], [1, 0, 2], [1, 2, 0], [2, 0, 1], [2, 1, 0]] {
+                let blocks = refsrv::cat(&[bl[perm[0]], bl[perm[1]], bl[perm[2]]]);
+                let tail = refsrv::cat(&[&[0x14, 0x76, 0x0a, 0x01, 0x01, 0x00, 0x01, 0xc0, 0x00], b"McDn", &refsrv::perlen(blocks.len()), &blocks]);
+                emit(em, format!("gcc_ccr {}", hex(&refsrv::cat(&[&[0x00, 0x05, 0x00, 0x14, 0x7c, 0x00, 0x01], &refsrv::perlen(tail.len()), &tail]))));
+            }
+        } }
+    }
     // the three conforming sizes of the server core block: version only / + requested protocol / + early capability flags
     for &ver in &[0x00080004u32, 0x00080001, 0x00080005] { for extra in 0..3usize {
         let mut core = refsrv::cat(&[&[0x01, 0x0c, (8 + 4 * extra) as u8, 0x00], &refsrv::le32(ver)]);
